@@ -525,9 +525,9 @@ def adjacency_cases(tier):
         for combo in itertools.combinations_with_replacement(cells, size):
             for vsel in itertools.product(vals, repeat=size):
                 n += 1
-                if size >= 3 and n % (7 if quick else 3):
+                if size == 3 and n % (2 if quick else 1):
                     continue
-                if size >= 4 and n % 11:
+                if size >= 4 and n % 5:
                     continue
                 recs = [(o, s, v) for (o, s), v in zip(combo, vsel)]
                 if n % 2:
@@ -543,14 +543,14 @@ def uc_cases(tier):
     pool = range(len(UC_POOL))
     vias = ('parse_uc', '_from_uc', '_from_uc+fasta')
     n = 0
-    for size in range(1, 4 if quick else 5):
+    for size in range(1, 5 if quick else 6):
         for combo in itertools.combinations_with_replacement(pool, size):
             if not any(UC_POOL[k][0] in ('S', 'H') for k in combo):
                 continue                    # no counted record: the table would be empty
             n += 1
-            if size >= 3 and n % (3 if quick else 1):
+            if size == 4 and quick and n % 5:
                 continue
-            if size >= 4 and n % 5:
+            if size == 5 and n % 7:
                 continue
             order = list(combo) if n % 2 else list(combo)[::-1]
             for via in vias:
@@ -580,13 +580,13 @@ def run(rep):
                      'non-mapping values at every position or everywhere, all-null metadata of wrong length} x both axes',
                      malformed_cases(rep.tier), run_malformed_case, exhaustive=True)
         rt.run_scope(rep, 'from_adjacency',
-                     'record multisets of size 1..%d over 2x2 IDs x 7 value spellings (sizes >= 3 sampled) x header on/off x '
+                     'record multisets of size 1..%d over 2x2 IDs x 7 value spellings (largest size sampled) x header on/off x '
                      '{list, list with newlines, tuple, str, file object} x 4 ID alphabets' % (3 if q else 4),
                      adjacency_cases(rep.tier), run_adjacency_case, exhaustive=False)
         rt.run_scope(rep, 'uc',
-                     'multisets of size 1..%d from 12 uc lines (S, H incl. a repeated line, L, C, N, comment, blank) with at '
+                     'multisets of size 1..%d (largest size sampled) from 12 uc lines (S, H incl. a repeated line, L, C, N, comment, blank) with at '
                      'least one counted record x {parse_uc, _from_uc, _from_uc + fasta renaming} x 3 sample-ID alphabets x '
-                     'labels with/without description x file object / list of lines' % (3 if q else 4),
+                     'labels with/without description x file object / list of lines' % (4 if q else 5),
                      uc_cases(rep.tier), run_uc_case, exhaustive=False)
     common.finish_notes(rep, 'C17')
 
